@@ -22,7 +22,12 @@ LEVEL_TEXT = ("Lean 4 theorems about the decision model in both modes: from equa
               "direct dependency is materialised with, path by path, the value mode all has in its workspace (deps_current_at_exec: the "
               "value its output hash encodes) — and same_verdict_and_execs_holds — for every well-formed history of edits, taints and "
               "builds with any flags, run in lock step in both modes over separate caches, every build has the same verdict, the same "
-              "per-target verdicts, the same executed commands in the same order and leaves the same cache. "
+              "per-target verdicts, the same executed commands in the same order and leaves the same cache. Clause by clause: (1) same "
+              "verdict and executed set = same_verdict_and_execs_holds; (2) dependency outputs present and current when a command starts = "
+              "deps_present_at_exec_holds + deps_current_at_exec; (3) materialised outputs have the bytes of mode all = Rel.loaded inside "
+              "these theorems + materialised_equal (per load). Excluded from the theorems (generated and compared by the oracle instead): "
+              "lost blobs, read faults while loading (witness + in-process test), output checks that inspect declared outputs (repaired "
+              "divergence, witness), `grog run` (lock-step family run). "
               "Tied by lock-step history correspondence against the real CLI in both modes.")
 LEVEL_NOTE = ("The lock-step theorem excludes histories with lost blobs (dropBlob steps; CasOK — every blob a stored result names is in the "
               "CAS — is required at the start and preserved by every other step): with a lost blob mode all re-executes an irretrievable "
@@ -31,7 +36,10 @@ LEVEL_NOTE = ("The lock-step theorem excludes histories with lost blobs (dropBlo
               "minValidate / rerunOnce / loadFault in the modelled code, well-formed builds (WF, dependency lists = direct dependencies "
               "without duplicates, declared outputs disjoint from inputs and check files over the whole history). A read fault on a stored "
               "target result while dependencies are loaded is injected in-process (overlay test with a failing backend). The handlers' "
-              "local-digest short cut (restore from a matching workspace file without the blob) is not modelled.")
+              "local-digest short cut (restore from a matching workspace file without the blob) is not modelled. Output checks that read "
+              "a dependency's output are outside the lock-step theorem (OutDisc.chk: check files are not declared outputs); they are "
+              "generated (family depchecks), the divergence they exposed is repaired (dependency outputs are loaded before the "
+              "pre-execution checks, Fixes.checkDeps) and kept as check_reads_dependency_witness.")
 TECHNIQUE = "Lean 4 proof over an executable model + lock-step history correspondence (all vs minimal) with the real CLI"
 OBLIGATIONS = [
     "Grog.C15.same_decision_step",
@@ -42,13 +50,14 @@ OBLIGATIONS = [
     "Grog.C15.same_verdict_and_execs_holds",
     "Grog.C15.nocache_rerun_witness",
     "Grog.C15.load_fault_witness",
+    "Grog.C15.check_reads_dependency_witness",
 ]
 ASSUMPTIONS = [
     "lock-step theorem: histories without lost blobs (no dropBlob step; CasOK at the start), well-formed builds (BuildOK)",
     "cache key injective (C09), restore exact (C06), atomic per-target steps",
 ]
 
-FAMILIES_QUICK = [("edits", 2), ("wipe", 4), ("lostblob", 4), ("dirs", 2), ("alias", 2), ("aliaswipe", 3), ("nocache", 3), ("tamper", 1), ("disabled", 2), ("taint", 2), ("collector", 2), ("run", 4), ("fanout", 3)]
+FAMILIES_QUICK = [("edits", 2), ("wipe", 3), ("lostblob", 3), ("dirs", 2), ("alias", 2), ("aliaswipe", 2), ("nocache", 2), ("tamper", 1), ("disabled", 2), ("taint", 2), ("collector", 2), ("run", 3), ("fanout", 3), ("depchecks", 3)]
 FAMILIES_THOROUGH = [(f, n * 15) for f, n in FAMILIES_QUICK]
 
 # round-c families (generators in _hist2.py)
